@@ -86,6 +86,8 @@ class _Summ:
         return out
 
     def events(self, fn: ast.FunctionDef, env: Optional[Dict[str, str]] = None, depth: int = 0) -> List[Tuple]:
+        from ..core import unroll_literal_loops
+        fn = unroll_literal_loops(fn)    # a table-driven `for op, update in ((old, remove), (new, append))` reads as the two blocks
         env = self.local_ops(fn, env or {})
         evs: List[Tuple] = []
 
